@@ -366,3 +366,23 @@ LANES = [
          shards={"quick": 16, "thorough": 64}, nontrivial=_nontrivial, labels=_labels,
          rule="real GeminiClient.get/upload over in-memory TLS under virtual time; promptness and timeout bound"),
 ]
+
+
+def _fz_decode(fdp):
+    term = ["clean", "clean", "fin", "reset", "stall"][fdp.ConsumeIntInRange(0, 4)]
+    op = "get" if fdp.ConsumeBool() else "upload"
+    ncuts = fdp.ConsumeIntInRange(0, 4)
+    cutv = [fdp.ConsumeIntInRange(1, 400) for _ in range(ncuts)]
+    short = fdp.ConsumeBool()
+    data = fdp.ConsumeBytes(fdp.remaining_bytes())
+    n = len(data)
+    cuts = sorted({c for c in cutv if c < n})
+    term_at = n if not short else (cutv[0] % (n + 1) if cutv else n)
+    return {"stream": b2s(data), "labels": ["atheris"], "cuts": cuts, "term": term, "term_at": term_at, "op": op}
+
+
+FUZZ_LANES = [
+    {"name": "stream-bytes", "lane": "proto", "decode": _fz_decode, "runs": {"thorough": 200000},
+     "seeds": [b"\x00\x01\x00\x0020 text/gemini\r\nhello", b"\x00\x01\x00\x0020 text/plain; charset=klingon\r\nx",
+               b"\x03\x00\x00\x0051 nope\r\n", b"\x00\x01\x00\x0020 image/png\r\n\xff\xd8"]},
+]
